@@ -49,6 +49,23 @@ fn b2() -> Fp2El {
 
 ec::curve_api!();
 
+/// A point of E(Fp) outside the order-R subgroup: x = 4, y = sqrt(4^3 + 4) (P = 3 mod 4).
+pub fn g1_off_subgroup() -> G1 {
+    let y = BigUint::from(68u32).modpow(&((p() + 1u32) >> 2), &p());
+    G1::Aff(BigUint::from(4u32), y)
+}
+
+/// A point of E'(Fp2) outside the order-R subgroup: x = 1 + u (y from the python model, checked in the tests).
+pub fn g2_off_subgroup() -> G2 {
+    G2::Aff(
+        (BigUint::from(1u32), BigUint::from(1u32)),
+        (
+            ec::parse("17faa6201231304f270b858dad9462089f2a5b83388e4b10773abc1eef6d193b9fce4e8ea2d9d28e3c3a315aa7de14ca", 16),
+            ec::parse("cc12449be6ac4e7f367e7242250427c4fb4c39325d3164ad397c1837a90f0ea1a534757df374dd6569345eb41ed76e", 16),
+        ),
+    )
+}
+
 #[cfg(test)]
 mod tests {
     use super::*;
@@ -191,6 +208,11 @@ mod tests {
     /// from the python model.
     #[test]
     fn g2_add_outside_subgroup() {
+        assert!(!g2_in_subgroup(&g2_off_subgroup()) && !g1_in_subgroup(&g1_off_subgroup()));
+        match (g2_off_subgroup(), g1_off_subgroup()) {
+            (G2::Aff(x, y), G1::Aff(a, b)) => assert!(g2_on_curve(&x, &y) && g1_on_curve(&a, &b)),
+            _ => unreachable!(),
+        }
         let c: Vec<BigUint> = ["1", "1", "17faa6201231304f270b858dad9462089f2a5b83388e4b10773abc1eef6d193b9fce4e8ea2d9d28e3c3a315aa7de14ca", "cc12449be6ac4e7f367e7242250427c4fb4c39325d3164ad397c1837a90f0ea1a534757df374dd6569345eb41ed76e", "1451df4be18be383af07e125127436781840dc750447e428a2b431d911faff0c6c3869662707a7833fe89f0c53c8b468", "1503dfb1adb98b667ef3fc471af8217fdbfcceb70c262ae42b675e1f2984e01688b2f76d261d1b966c93ef262ba4d639", "1939353547e17098e89366d25a4c5a5977c052e3635812268caf3f46678fba902725ab7a73cd9837a5382b68e7cc9c68", "173787914d5b35e9e9d6fe9831acf04ac98956913bbc84b846961502968c2acdc60d14d3afe6621f7db3a0fc747a7e11", "919f97860ecc3e933e3477fcac0e2e4fcc35a6e886e935c97511685232456263def6665f143ccccb44c733333331553", "18b4376b50398178fa8d78ed2654b0ffd2a487be4dbe6b69086e61b283f4e9d58389cccb8edc99995718a66666661555", "26898f699c4b07a405ab4183a10b47f923d1c0fda1018682dd2ccc88968c1b90d44534d6b9270cf57f8dc6d4891678a", "3270414330ead5ec92219a03a24dfa059dbcbe610868be1851cc13dac447f60b40d41113fd007d3307b19add4b0f061"].iter().map(|s| big(s)).collect();
         let pt = |i: usize| G2::Aff((c[i].clone(), c[i + 1].clone()), (c[i + 2].clone(), c[i + 3].clone()));
         let (q, s, q2) = (pt(0), pt(4), pt(8));
